@@ -23,7 +23,7 @@ def perturb(spec, rng, field="fcst"):
         for p in s["fields"][field]:
             for r in p:
                 for i in range(len(r)):
-                    if r[i] is not None:
+                    if r[i] is not None and not isinstance(r[i], str):
                         r[i] = r[i] + rng.choice([0.25, -1.5, 7.0, 100.0])
     return s
 
@@ -36,7 +36,11 @@ def explore(out, tier, seed, facts, replay=None):
 def _explore(out, tier, seed, facts, replay):
     datagen.patch_error()
     n = 100 if tier == "quick" else 1200
-    stats, cases = datatie.run_tie(out, seed, n, 8, "c01", options=True)
+    datagen.INF_RATE = 0.04          # inputs with infinite values (text token inf, NetCDF -inf): unusable in EVERY input's score
+    try:
+        stats, cases = datatie.run_tie(out, seed, n, 8, "c01", options=True)
+    finally:
+        datagen.INF_RATE = 0.0
     rng = random.Random(seed + 101)
     nf = 0
     distinct = set()
